@@ -28,12 +28,18 @@ def ordinal_key(body, decl, bb):
     return "%s#%d" % (decl.split("::")[-1], bbs.index(bb) if bb in bbs else -1)
 
 
+ERR_KEEPING = {"anyhow::Context::context", "anyhow::Context::with_context", "core::result::Result::<T, E>::map_err"}
+
+
 def is_error_exit(term):
     """Exit value built by error propagation or an explicit Err(..)."""
     if term[0] == "call" and term[1] == FROM_RESIDUAL:
         return True
     if term[0] == "agg" and isinstance(term[1], tuple) and term[1][0] == "adt" and term[1][2] == "Err":
         return True
+    # `Err(e).context("..")` / `.map_err(..)` applied to a value that is an error already
+    if term[0] == "call" and term[1] in ERR_KEEPING and term[3]:
+        return is_error_exit(term[3][0])
     return False
 
 
@@ -49,6 +55,16 @@ def exits(W, body):
             node = pv.node_at(d)
             if d[1] != "T" and node["rv"]["k"] == "use" and node["rv"]["op"]["k"] in ("copy", "move") and not node["rv"]["op"]["p"]["proj"]:
                 src = node["rv"]["op"]["p"]["l"]
+                hops = 0
+                while src not in pv.phi_locals and src > body.arg_count and len(pv.defsites.get(src, [])) == 1 and hops < 6:
+                    # a chain of plain moves (`_0 = move _36; _36 = move _37`) down to the local that is defined on several paths
+                    d2 = pv.defsites[src][0]
+                    n2 = pv.node_at(d2)
+                    if d2[1] != "T" and n2["rv"]["k"] == "use" and n2["rv"]["op"]["k"] in ("copy", "move") and not n2["rv"]["op"]["p"]["proj"]:
+                        src = n2["rv"]["op"]["p"]["l"]
+                        hops += 1
+                    else:
+                        break
                 if src in pv.phi_locals and src > body.arg_count and src not in seen and src not in pv.mutborrow and src not in pv.partial:
                     seen.add(src)
                     expand(src)
@@ -1126,7 +1142,7 @@ def c01_key(rep, W, rule="C01.KEY"):
             if is_error_exit(rt):
                 continue
             mm = m(pat.adt("Result", "Ok", ("0", V("x"))), rt)
-            if mm is not None and mm["x"] == o_[0].term:
+            if mm is not None and is_lookup_result(mm["x"], o_[0].term):
                 hit = True
             elif mm is None or m(pat.adt("Option", "None", Ellipsis), mm["x"]) is None:
                 other.append(P.show(rt)[:100])
@@ -1552,6 +1568,15 @@ def closure_result(W, closure_term, param_terms):
     return sub(ex[0][1])
 
 
+def is_lookup_result(x, lookup):
+    """x denotes the looked-up Option `lookup` (a map `get`) handed on unchanged: the term itself (`.cloned()` is an identity
+    transport), or the re-wrapped `Some(v.clone())` of its payload written as an explicit match arm."""
+    if x == lookup:
+        return True
+    mm = m(pat.adt("Option", "Some", ("0", V("p"))), x)
+    return mm is not None and mm["p"] == ("ok", lookup)
+
+
 def option_map_of(g, pv, t, scrut):
     """t is a local holding `scrut.map(f)` in canonical form (None when scrut is None, Some(payload) when it is Some,
     however that was spelled): returns the Some payload term, else None."""
@@ -1561,15 +1586,36 @@ def option_map_of(g, pv, t, scrut):
     if set(sm) != {"None", "Some"}:
         return None
     atom = ("VARIANT", scrut)
+    want_of = {}
     for site in pv.defsites.get(t[1], []):
-        node = pv.node_at(site)
-        if site[1] == "T" or node["rv"]["k"] != "aggregate":
+        dt = pv.def_term(site)       # the literal may have been built in a temporary and moved in
+        if not (dt[0] == "agg" and isinstance(dt[1], tuple) and dt[1][0] == "adt" and dt[1][2] in ("Some", "None")):
             return None
-        want = "ok" if node["rv"]["variant"] == "Some" else "err"
+        want_of[site] = "ok" if dt[1][2] == "Some" else "err"
+    # (a) every definition sits on the matching branch of the test of scrut (`scrut.map(..)`, `match scrut {..}`), or
+    # (b) `let mut x = None; if let Some(s) = scrut { x = Some(..) }`: wherever x is TESTED, the definition that reaches is the
+    #     one matching scrut's variant
+    ok_a = True
+    for site, want in want_of.items():
         vals = g.vals_at(site)
         if not vals or any(v.get(atom) != frozenset([want]) for v in vals):
-            return None
-    return sm["Some"]
+            ok_a = False
+    if ok_a:
+        return sm["Some"]
+    uses = 0
+    for a, bbs in g.atoms.items():
+        if not any(x[0] == "phi" and x[1] == t[1] for part in a[1:] if isinstance(part, tuple) for x in P.walk(part)):
+            continue
+        for bb in bbs:
+            for st_ in g.states_at_block(bb):
+                val = dict(st_[1])
+                sel = val.get(("def", t[1]))
+                if sel is None or len(sel) != 1 or next(iter(sel)) not in want_of:
+                    return None
+                uses += 1
+                if val.get(atom) != frozenset([want_of[next(iter(sel))]]):
+                    return None
+    return sm["Some"] if uses else None
 
 
 def c10(rep, W, rule="C10"):
@@ -1694,7 +1740,8 @@ def c10(rep, W, rule="C10"):
            "the accept test and the newer-snapshot test are evaluated on the current id before the walk moves to its parent", where(body, vsite[0]))
     # C10.D: every non-error exit is Ok(()); decline exits are exactly under a decline condition
     okunit = pat.adt("Result", "Ok", ("0", ("agg", "tuple", ())))
-    decl = ("or", ("is", e, True), ("is", s, True), ("is", n, True), ("is", gatom, "err"))
+    # (z: the requested id is NIL, which is never acceptable -- declining it is right at any point of the walk)
+    decl = ("or", ("is", e, True), ("is", s, True), ("is", n, True), ("is", gatom, "err"), ("is", z, True))
     exit_blocks = {}
     nd = 0
     for site, term in exits(W, body):
@@ -2076,6 +2123,24 @@ def c12_max(rep, W, rule="C12.MAX"):
             # max(High, High) written as High
             rep.ob(rule, (fn, "no-snapshot-is-high"), True, "without a stored snapshot the urgency is High", where(body, line=ln))
             continue
+        if not is_max and u is not None and has == frozenset(["ok"]):
+            # `if time > version { time } else { version }`: the larger of the two under the comparison that selected it
+            days_ = call("chrono::time_delta::TimeDelta::num_days", call("core::ops::arith::Sub::sub", call("chrono::offset::utc::Utc::now"), ("field", snap, "timestamp")))
+            pd_ = call(WD.CORE + "::server::SnapshotUrgency::for_days", pat.OneOf(cfg, ("field", cfg, "snapshot_days")), days_)
+            pvz_ = call(WD.CORE + "::server::SnapshotUrgency::for_versions_since", pat.OneOf(cfg, ("field", cfg, "snapshot_versions")), ("field", snap, "versions_since"))
+            okc = False
+            for a_, vs_ in val.items():
+                if a_[0] != "CMP" or len(vs_) != 1:
+                    continue
+                lo_, hi_ = g.resolve_phis(a_[2], val), g.resolve_phis(a_[3], val)
+                if not ((m(pd_, lo_) is not None and m(pvz_, hi_) is not None) or (m(pvz_, lo_) is not None and m(pd_, hi_) is not None)):
+                    continue
+                lt = next(iter(vs_))                  # True: lo < hi (strict) / lo <= hi for 'Le'
+                larger = hi_ if lt else lo_           # when not (lo < hi): lo >= hi, lo is a maximum
+                okc = okc or u == larger
+            rep.ob(rule, (fn, "measures-from-pre-request-record"), okc,
+                   "with a snapshot the urgency is %s, selected by an explicit comparison as the larger of for_days(..) and for_versions_since(..)" % P.show(u)[:100], where(body, line=ln))
+            continue
         if not is_max:
             rep.fail(rule, (fn, "max"), "urgency of an accepted version is %s; must be max(time urgency, version urgency)" % (P.show(u) if u else "?"), where(body, line=ln))
             continue
@@ -2245,6 +2310,8 @@ def s_failstop(rep, W, body, rule="S-FAILSTOP"):
                 break
             if x[0] in succ_blocks:
                 val = dict(x[1])
+                if d in R.NO_ROW_QUERIES and val.get(("VARIANT", ("err", T))) == frozenset(["QueryReturnedNoRows"]):
+                    continue         # "no such row" is an answer, not a failure (an explicit arm doing what `.optional()` does)
                 if any(val.get(a) == errv for a in atoms):
                     bad = "a non-error return (line %d) is reachable although the step failed" % body.line_of_block(x[0])
                     break
